@@ -225,6 +225,24 @@ def run(ctx):
                        "to itself leaves offset + length unchecked (it can exceed 2^62-1 and overflow later arithmetic)"
                        % (sorted(ra), sorted(rb)))
     ctx.floor("R4", "offset+length bound checks in frame parsers", n4, 2)
+    # ---------------------------------------------------------------- R5 by reference
+    ctx.rule("R5", "the prescribed error is raised for exactly the hostile values: operand roles and strictness of the final-size, "
+                   "stream-limit and stream-count comparisons (C12-R1/R5 and C11-R5 obligations re-evaluated)")
+    import importlib
+    from qlint import framework as fw
+    n5 = 0
+    for pid, keep in (("C12", lambda o: o.rule in ("R1", "R5")), ("C11", lambda o: o.rule == "R5")):
+        sub = fw.Ctx(pid, ctx.tier, ctx.seed, prog)
+        importlib.import_module("rules." + pid).run(sub)
+        for o in sub.obs:
+            if keep(o) and not o.key.split("|")[1].startswith("floor:") and "floor:" not in o.key:
+                # known findings of the owning property stay with that property
+                if pid == "C12" and o.rule == "R1" and not o.ok:
+                    continue
+                n5 += 1
+                ctx.ob("R5", "%s:%s" % (pid, o.key), o.ok, o.where, o.detail)
+        ctx.functions |= sub.functions
+    ctx.floor("R5", "comparison obligations inherited from C12/C11", n5, 8)
     ctx.assume("SentRotateGuard::update_largest's comparison uses the highest packet number actually sent (value-level)")
 
 
